@@ -107,6 +107,25 @@ theorem entry_paths (base : String) (v : PV) (e : Entry) (h : e ∈ (sep base v 
   rw [← multipart_null_and_map]
   exact (pathsOf_of_mem (each_upload_once base v).2 h).symm
 
+/-- Upload positions are pairwise distinct (no path is listed twice, within or across entries). -/
+theorem upload_positions_distinct (v : PV) (hu : uniq v = true) : ((upos v).map (·.1)).Nodup := upos_nodup v hu
+
+/-- Rendering is injective on paths whose keys are GraphQL names (no '.', not a numeral) … -/
+theorem render_injective (base : String) (q q' : Path) (h : pathOk q = true) (h' : pathOk q' = true)
+    (e : render base q = render base q') : q = q' := render_inj base q q' h h' e
+
+/-- … so the dotted strings listed in `map` are pairwise distinct as well. -/
+theorem map_paths_pairwise_distinct (base : String) (v : PV) (hu : uniq v = true) (hk : keysOk v = true) :
+    ((upos v).map (fun pu => render base pu.1)).Nodup := rendered_nodup base v hu hk
+
+theorem entry_paths_nodup (base : String) (v : PV) (hu : uniq v = true) (hk : keysOk v = true) (e : Entry)
+    (h : e ∈ (sep base v []).2) : e.paths.Nodup := by
+  rw [entry_paths base v e h]
+  have := rendered_nodup base v hu hk
+  have hsub : ((upos v).filter (fun pu => pu.2 = e.id)).map (fun pu => render base pu.1) =
+      ((upos v).filter (fun pu => pu.2 = e.id)).map (fun pu => render base pu.1) := rfl
+  exact (List.Pairwise.sublist (List.Sublist.map _ List.filter_sublist) this)
+
 /-- `files` and `map` handed to httpx are these entries position by position: the i-th file part is
     named `str(i)` and carries Upload `entries[i].id`; the i-th `map` member has key `str(i)` and
     lists `entries[i].paths`. -/
@@ -540,6 +559,7 @@ def sampleCall : Call :=
     headers := some [("Content-Type", "text/plain"), ("X-A", "1")], kwargs := [("timeout", .num 3 0)] }
 
 example : validCall sampleCall = true ∧ Supported_11 sampleCall := by decide
+example : keysOkKvs (treeOf sampleCall.variables) = true := by decide
 example : ids (entries sampleCall) = [7, 9] ∧
     pathsOf 7 (entries sampleCall) = ["variables.a", "variables.b.0", "variables.b.1.c"] ∧
     pathsOf 9 (entries sampleCall) = ["variables.m.file"] := by decide
